@@ -265,6 +265,7 @@ DEFAULT_PROFILE: Dict[str, Any] = {
     "search_type": None,  # None = nearest_shortest_queue (9 of 10) or shortest_time_to_charge
     "idle_time_out": None,
     "colocate": 0.25,
+    "shared_ids": 0.0,  # probability that a base's station carries the base's id
     "depot": 0.0,  # probability (in fleets scenarios) of a depot shared by up to three human drivers
     "detached_base_station": 0.0,  # probability that a base's station is entered at other coordinates than the base
     "starts": [0, 0, 900, 1000, 3600, 9900, 43200, 86399, 99900],  # 900 / 9900 / 99900: epoch times change their number of digits during the run
@@ -435,7 +436,8 @@ def random_spec(seed: int, profile: Optional[Dict[str, Any]] = None) -> Dict[str
         p = (bases[-1]["lat"], bases[-1]["lon"]) if bases and rnd.random() < P.get("colocated_bases", 0.15) else geo.anchor(geo.fresh())
         st = None
         if rnd.random() < 0.7:
-            st = f"bs{i}"
+            # (ids are per kind: a base and its station may carry the same id)
+            st = f"b{i}" if P.get("shared_ids") and rnd.random() < P["shared_ids"] else f"bs{i}"
             plugs = [{"charger": rnd.choice(["LEVEL_2", "LEVEL_2", "LEVEL_1", "DCFC"]), "count": rnd.choice(P["plug_counts"]), "on_shift": False}]
             if rnd.random() < 0.3:
                 plugs.append({"charger": rnd.choice(gas), "count": 1, "on_shift": False})
